@@ -200,6 +200,116 @@ def fsevents_predicates(ctx, P, F) -> None:
     ctx.check(okm, RP, "_is_meta_mod is the disjunction of the three metadata flags", f"returns `{ast.unparse(rets[0]) if rets else None}`: a chmod / chown / xattr change would go unreported (or everything counts as one)", mf.loc)
 
 
+def native_wiring(ctx, P) -> None:
+    """The translators above are only as good as their wiring to the native layer: the records must get there, whole and in
+    order, and the handle they come from must be the watched directory's."""
+    from ..flow import origins
+    from ..pse import Cfg
+
+    RWI = ctx.rule(
+        "C20/native-wiring",
+        "FSEvents: run() registers the watch with the callback and enters the native read loop; the callback builds one native event per "
+        "(path, inode, flags, id) column-wise in parameter order and hands the list to queue_events under the lock; _encode_path follows "
+        "the watch path's type. Windows: the handle is opened on watch.path at thread start and closed at thread stop; _read_events reads "
+        "that handle for watch.path with the watch's recursive flag and queue_events translates exactly what it returns",
+        floor=8,
+    )
+    F = P.cls("FSEventsEmitter")
+    rn = F.methods.get("run")
+    cb = F.methods.get("events_callback")
+    if rn is None or cb is None:
+        raise AnalysisError("anchor vanished: FSEventsEmitter.run / events_callback")
+    calls = [(dotted(n.func), [ast.unparse(a) for a in n.args]) for n in ast.walk(rn.node) if isinstance(n, ast.Call)]
+    aw = [a for f, a in calls if f == "_fsevents.add_watch"]
+    re_ = [a for f, a in calls if f == "_fsevents.read_events"]
+    pn = [n for n in ast.walk(rn.node) if isinstance(n, ast.Assign) and any(ast.unparse(t) == "self.pathnames" for t in n.targets)]
+    ctx.check(len(aw) == 1 and aw[0] == ["self", "self.watch", "self.events_callback", "self.pathnames"], RWI, "FSEvents run registers (emitter, watch, callback, pathnames)", f"add_watch called with {aw}", rn.loc)
+    ctx.check(len(re_) == 1 and re_[0] == ["self"], RWI, "FSEvents run enters the native read loop", f"read_events called with {re_}", rn.loc)
+    ctx.check(len(pn) == 1 and ast.unparse(pn[0].value) == "[self.watch.path]", RWI, "FSEvents watches exactly the watch path", f"pathnames = {[ast.unparse(x.value) for x in pn]}", rn.loc)
+    order_ok = [i for i, (f, _) in enumerate(calls) if f == "_fsevents.add_watch"] < [i for i, (f, _) in enumerate(calls) if f == "_fsevents.read_events"]
+    ctx.check(order_ok, RWI, "FSEvents registers before reading", "the read loop is entered before the watch is registered", rn.loc)
+    cparams = [a.arg for a in cb.node.args.args if a.arg != "self"]
+    comp = [n for n in ast.walk(cb.node) if isinstance(n, ast.ListComp)]
+    okc, why = False, "no list comprehension building the native events"
+    if comp and len(comp[0].generators) == 1:
+        g = comp[0].generators[0]
+        zi = g.iter
+        elt = comp[0].elt
+        if isinstance(zi, ast.Call) and dotted(zi.func) == "zip" and isinstance(g.target, ast.Tuple) and isinstance(elt, ast.Call):
+            cols = [ast.unparse(a) for a in zi.args]
+            tg = [ast.unparse(a) for a in g.target.elts]
+            ea = [ast.unparse(a) for a in elt.args]
+            ctor = origins(cb.node, elt.func)
+            okc = cols == cparams[:4] and tg == ea and len(tg) == 4 and not g.ifs and all(b == "_fsevents.NativeEvent" and not w for b, w in ctor)
+            why = f"columns {cols} (parameters {cparams}), targets {tg}, constructor {sorted(b for b, _ in ctor)}{ea}, filter {bool(g.ifs)}"
+    ctx.check(okc, RWI, "FSEvents callback builds NativeEvent(path, inode, flags, id) column-wise", why, cb.loc)
+    okq = False
+    for p in Enumerator(Cfg(P)).run(cb, selfcls="FSEventsEmitter"):
+        for e, held, _p in __import__("sa.pse", fromlist=["walk_with_locks"]).walk_with_locks([p], lambda t: t):
+            if e.kind == "call" and e.extra.get("func") == "self.queue_events":
+                a = e.extra.get("args") or []
+                built = len(a) == 2 and (a[1].startswith("[") or (a[1].isidentifier() and all(b.startswith("expr:[") and not w for b, w in origins(cb.node, ast.Name(a[1], ast.Load())))))
+                okq = len(a) == 2 and a[0] == "self.timeout" and built and held.get("self._lock", 0) > 0
+    ctx.check(okq, RWI, "FSEvents callback hands the list to queue_events under the lock", "queue_events is not called with (timeout, the built list) under the emitter lock", cb.loc)
+    ep = F.methods.get("_encode_path")
+    if ep is None:
+        raise AnalysisError("anchor vanished: FSEventsEmitter._encode_path")
+    par = ([a.arg for a in ep.node.args.args if a.arg != "self"] or ["path"])[0]
+    oke, seen = True, set()
+    for p in Enumerator(Cfg(P)).run(ep, selfcls="FSEventsEmitter"):
+        if p.outcome[0] != "return":
+            continue
+        isb = p.conds().get("isinstance(self.watch.path, bytes)")
+        rt = ast.unparse(p.outcome[1]) if p.outcome[1] is not None else "None"
+        seen.add(isb)
+        if isb is True and rt != f"os.fsencode({par})":
+            oke = False
+        if isb is False and rt != par:
+            oke = False
+        if isb is None:
+            oke = False
+    ctx.check(oke and seen == {True, False}, RWI, "FSEvents _encode_path follows the watch path type", "_encode_path is not `os.fsencode(path)` for a bytes watch and the identity otherwise (C19 for this emitter)", ep.loc)
+
+    # ---- Windows
+    Wc = P.cls("WindowsApiEmitter")
+    ts, tp, rd, qe = (Wc.methods.get(m) for m in ("on_thread_start", "on_thread_stop", "_read_events", "queue_events"))
+    if None in (ts, tp, rd, qe):
+        raise AnalysisError("anchor vanished: WindowsApiEmitter thread hooks / _read_events / queue_events")
+    st = [n for n in ast.walk(ts.node) if isinstance(n, ast.Assign) and any(ast.unparse(t) == "self._whandle" for t in n.targets)]
+    ctx.check(len(st) == 1 and ast.unparse(st[0].value) == "get_directory_handle(self.watch.path)", RWI, "Windows opens the handle on watch.path", f"_whandle = {[ast.unparse(x.value) for x in st]}", ts.loc)
+    okstop = False
+    for p in Enumerator(Cfg(P)).run(tp, selfcls="WindowsApiEmitter"):
+        h = p.conds().get("self._whandle")
+        closes = [e for e in p.evs if e.kind == "call" and e.extra.get("func") == "close_directory_handle" and (e.extra.get("args") or [""])[0] == "self._whandle"]
+        if h is True and len(closes) != 1:
+            okstop = None
+        if h is False and closes:
+            okstop = None
+        if okstop is False and h is True and len(closes) == 1:
+            okstop = True
+    ctx.check(okstop is True, RWI, "Windows closes the handle at thread stop iff it has one", "on_thread_stop does not close exactly the open handle", tp.loc)
+    okr, seenr = True, set()
+    for p in Enumerator(Cfg(P)).run(rd, selfcls="WindowsApiEmitter"):
+        if p.outcome[0] != "return":
+            continue
+        h = p.conds().get("self._whandle")
+        rt = ast.unparse(p.outcome[1]) if p.outcome[1] is not None else "None"
+        seenr.add(h)
+        if h is True and rt != "read_events(self._whandle, self.watch.path, recursive=self.watch.is_recursive)":
+            okr = False
+        if h is False and rt != "[]":
+            okr = False
+        if h is None:
+            okr = False
+    ctx.check(okr and seenr == {True, False}, RWI, "Windows _read_events reads the handle for watch.path with the recursive flag", "_read_events does not return read_events(handle, watch.path, recursive=watch.is_recursive) when it has a handle and [] otherwise", rd.loc)
+    loops = [n for n in ast.walk(qe.node) if isinstance(n, ast.For)]
+    okl = False
+    if loops:
+        o = origins(qe.node, loops[0].iter)
+        okl = o == {("expr:self._read_events()", ())} or all(b.startswith("expr:self._read_events()") and not w for b, w in o)
+    ctx.check(okl, RWI, "Windows queue_events translates exactly what _read_events returned", "the record loop does not iterate over the result of self._read_events()", qe.loc)
+
+
 def run(ctx) -> None:
     P = ctx.P
     RWn = ctx.rule("C20/windows-emission-contract", "per ReadDirectoryChangesW action: ADDED -> created of the entry's kind (+ sub-created for a directory under a recursive watch); REMOVED -> deleted of the entry's kind; MODIFIED -> modified of the entry's kind; RENAMED_OLD then RENAMED_NEW -> one moved(source, destination) of the entry's kind (+ sub-moved for a directory under a recursive watch); REMOVED_SELF -> DirDeletedEvent(root) and stop", floor=8)
@@ -403,6 +513,18 @@ def run(ctx) -> None:
                 problems.append(f"the rename partner carries a modified / metadata flag: exactly one modified event under the new path expected, found {len(dmods)}")
             if DM is False and DMM is False and dmods:
                 problems.append("a modified event for a rename partner without modified / metadata flag")
+        if D:
+            DR = c.get("dst.is_removed")
+            ddel = [e for e in ems if e.kind == "E" and e.cls.endswith("DeletedEvent") and e.args and re.fullmatch(DST_RE, e.args[0])]
+            if DR is None:
+                problems.append("the rename partner's removed flag is not consulted: an item renamed and then removed stays in every replay")
+            elif DR is True and len(ddel) != 1:
+                problems.append(f"the rename partner is also removed: exactly one deleted event under the new path expected, found {len(ddel)}")
+            elif DR is False and ddel:
+                problems.append("a deleted event under the new path although the partner record is not removed")
+            taken = [x for x in b.evs if x.kind == "call" and x.extra.get("func") == f"{BATCH[0]}.remove" and fs_alias((x.extra.get("args") or [""])[0]) == "dst"]
+            if len(taken) != 1:
+                problems.append("the partner record is not taken out of the batch: it is translated a second time as an unpaired rename (a spurious created event)")
         if any(e.kind == "G?" for e in ems):
             problems.append("a synthetic-event generator is iterated but its elements are not all queued")
         for e in created + deleted:
@@ -503,6 +625,8 @@ def run(ctx) -> None:
             want = ["self", evp] if recv == "EventEmitter" else [evp]
             ctx.check(args == want, RN, "override forwards (self, event)", f"the base queue_event is called with {args}, expected {want}", f"{F.module.relpath}:{n.lineno}")
     fsevents_predicates(ctx, P, F)
+
+    native_wiring(ctx, P)
 
     # ---------------------------------------------------------------- inotify header constants
     pf = P.find_method("Inotify", "_parse_event_buffer")
@@ -608,6 +732,16 @@ VARIANTS = [
     dict(name="B FSEvents sub-moved events generated but not queued", expect="fire", rule="C20/fsevents-emission-invariants", edits=[(FS, "                        for sub_moved_event in generate_sub_moved_events(src_path, dst_path):\n                            self.queue_event(sub_moved_event)", "                        for sub_moved_event in generate_sub_moved_events(src_path, dst_path):\n                            logger.debug(\"%s\", sub_moved_event)")]),
     dict(name="B Windows sub-moved events generated but not queued", expect="fire", rule="C20/windows-emission-contract", edits=[("observers/read_directory_changes.py", "                            for sub_moved_event in generate_sub_moved_events(src_path, dest_path):\n                                self.queue_event(sub_moved_event)", "                            for sub_moved_event in generate_sub_moved_events(src_path, dest_path):\n                                pass")]),
     dict(name="B Windows REMOVED not reported", expect="fire", rule="C20/windows-emission-contract", edits=[("observers/read_directory_changes.py", "                    self.queue_event(FileDeletedEvent(src_path))", "                    pass")]),
+    dict(name="B FSEvents partner record left in the batch", expect="fire", rule="C20/fsevents-emission-invariants", edits=[(FS, "                        events.remove(dst_event)\n", "")]),
+    dict(name="B FSEvents partner's removal reported when it is not removed", expect="fire", rule="C20/fsevents-emission-invariants", edits=[(FS, "                        if dst_event.is_removed:\n                            self._queue_deleted_event(dst_event", "                        if not dst_event.is_removed:\n                            self._queue_deleted_event(dst_event")]),
+    dict(name="B FSEvents callback does not hand the events over", expect="fire", rule="C20/native-wiring", edits=[(FS, "                self.queue_events(self.timeout, events)\n", "                pass\n")]),
+    dict(name="B FSEvents columns mixed up", expect="fire", rule="C20/native-wiring", edits=[(FS, "in zip(paths, inodes, flags, ids)", "in zip(paths, flags, inodes, ids)")]),
+    dict(name="B FSEvents read loop never entered", expect="fire", rule="C20/native-wiring", edits=[(FS, "            _fsevents.read_events(self)\n", "            pass\n")]),
+    dict(name="B FSEvents _encode_path inverted", expect="fire", rule="C20/native-wiring", edits=[(FS, "return os.fsencode(path) if isinstance(self.watch.path, bytes) else path", "return os.fsencode(path) if not isinstance(self.watch.path, bytes) else path")]),
+    dict(name="B Windows handle never opened", expect="fire", rule="C20/native-wiring", edits=[("observers/read_directory_changes.py", "        self._whandle = get_directory_handle(self.watch.path)\n", "        pass\n")]),
+    dict(name="B Windows reads only without a handle", expect="fire", rule="C20/native-wiring", edits=[("observers/read_directory_changes.py", "        if not self._whandle:\n            return []", "        if self._whandle:\n            return []")]),
+    dict(name="B Windows records never fetched", expect="fire", rule="C20/", edits=[("observers/read_directory_changes.py", "        winapi_events = self._read_events()\n", "        winapi_events = []\n")]),
+    dict(name="E Windows records iterated directly", expect="silent", edits=[("observers/read_directory_changes.py", "        winapi_events = self._read_events()\n        with self._lock:\n            last_renamed_src_path = \"\"\n            for winapi_event in winapi_events:", "        with self._lock:\n            last_renamed_src_path = \"\"\n            for winapi_event in self._read_events():")]),
     dict(name="B FSEvents override forwards (event, self)", expect="fire", rule="C20/nonrecursive-filter-unbypassable", edits=[(FS, "EventEmitter.queue_event(self, event)", "EventEmitter.queue_event(event, self)")]),
     dict(name="B FSEvents non-recursive filter inverted", expect="fire", rule="C20/nonrecursive-filter-unbypassable", edits=[(FS, "if self._watch.is_recursive or not self._is_recursive_event(event):", "if self._watch.is_recursive or self._is_recursive_event(event):")]),
     dict(name="B Windows walk never stops", expect="fire", rule="C20/windows-buffer-walk", edits=[("observers/winapi.py", "        if num_to_skip <= 0:\n            break\n", "")]),
